@@ -1,6 +1,7 @@
 // nifsim — C08: wire format stays compatible with the reference release (mixed-version world: one
 // slot runs the working tree, the other the vendored pinned tree; they exchange files).
 #include "sim.hpp"
+#include "nifparse.hpp"
 
 std::string cur_roundtrip(const std::string& in, int* rc, long* consumed);
 std::string ref_roundtrip(const std::string& in, int* rc, long* consumed);
@@ -70,6 +71,19 @@ void profile_twobuild(const json& plan, Ctx& ctx) {
 		std::string w = diffWhere(CA, CB, &d);
 		ctx.viol("cur-reads-ref-differently:" + w, "re-encoded by the current build, the reference build's file differs from the current build's own (" + d + ")");
 	}
+	// (4) "consumes every block exactly": the size a build declares for a block equals the size the other build writes for the
+	// same content (the readers themselves skip by what they parse, not by the table, so total consumption alone cannot see a
+	// table that is off)
+	auto sizeTables = [&](const std::string& written, const std::string& reencoded, const char* cls, const char* who, const char* other) {
+		auto pw = nifparse::parse(written), pr = nifparse::parse(reencoded);
+		if (!pw.ok || !pr.ok || !pw.hasSizes || !pr.hasSizes || pw.numBlocks != pr.numBlocks) return;
+		for (uint32_t i = 0; i < pw.numBlocks; i++)
+			if (pw.sizes[i] != pr.sizes[i] && pw.typeOf(i) == pr.typeOf(i))
+				ctx.viol(std::string(cls) + ":" + pw.typeOf(i), std::string("block ") + std::to_string(i) + " (" + pw.typeOf(i) + "): the " + who + " build declares " + std::to_string(pw.sizes[i]) + " bytes, the " + other + " build writes " + std::to_string(pr.sizes[i]) + " for the same content");
+		ctx.probe("size_tables_compared");
+	};
+	sizeTables(A, RA, "cur-declared-size", "current", "reference");
+	sizeTables(B, CB, "ref-declared-size", "reference", "current");
 	ctx.probe(A == B ? "outputs_identical" : "outputs_equal_only_canonically");
 	ctx.nontrivial = true;
 	ctx.steps += 4;
